@@ -9,7 +9,7 @@
 //      in a cycle and Printer::printModel, tried in a forked grandchild, died; nothing else is run)
 //   1  ENT0  value-level description of the original model (grammar below), or OOS(<reason>) when the model is
 //            outside the scope of the entity model (an equivalent variable outside the model, ...)
-//   2  V=<validator issue count on the original>
+//   2  V=<validator issue count on the original>  (-1: the Validator, run in a forked grandchild, died)
 //   3  D0    dump.hpp dumpModel(original, sorted=true)
 //   4  P1    s<hex> of Printer::printModel(original)
 //   5  PI=<printer issue count>
@@ -271,6 +271,34 @@ static void parseStage(const std::string &text, std::string &out, ModelPtr &mode
     out += "\t" + (model != nullptr ? dumpModel(model, true) : std::string("-"));
 }
 
+static long validateCount(const ModelPtr &m)
+{
+    int fds[2];
+    if (pipe(fds) != 0) {
+        return -1;
+    }
+    fflush(stdout);
+    pid_t pid = fork();
+    if (pid == 0) {
+        close(fds[0]);
+        auto v = Validator::create();
+        v->validateModel(m);
+        long n = long(v->issueCount());
+        ssize_t w = write(fds[1], &n, sizeof n);
+        _exit(w == ssize_t(sizeof n) ? 0 : 1);
+    }
+    close(fds[1]);
+    long n = -1;
+    ssize_t r = read(fds[0], &n, sizeof n);
+    close(fds[0]);
+    int status = 0;
+    waitpid(pid, &status, 0);
+    if (r != ssize_t(sizeof n) || !WIFEXITED(status) || WEXITSTATUS(status) != 0) {
+        return -1;
+    }
+    return n;
+}
+
 // a cycle in the "units child references units of the model by name" graph
 static bool unitsCycle(const ModelPtr &m)
 {
@@ -333,14 +361,10 @@ static std::string runCase(const std::string &line)
         }
         out = "ok\t" + ent(m);
         bool cyclic = unitsCycle(m);
-        if (cyclic) {
-            // (the Validator also recurses without end on such units when a connection uses them: not called)
-            out += "\tV=-1";
-        } else {
-            auto v = Validator::create();
-            v->validateModel(m);
-            out += "\tV=" + std::to_string(v->issueCount());
-        }
+        // The Validator runs in a forked grandchild: it is not the subject here, and on models outside its own domain
+        // (units cycles, ownership corrupted by look-alike removals: findings of C01 / C09) it can die.
+        // V=-1: validator died (the model then does not count as validator-accepted).
+        out += "\tV=" + std::to_string(validateCount(m));
         out += "\t" + dumpModel(m, true);
         if (cyclic) {
             // Model::hasImports (called by printModel) recurses without end on a units reference cycle (finding K3):
